@@ -7,6 +7,7 @@ import (
 	"net/http/httptest"
 	"strings"
 	"sync"
+	"sync/atomic"
 	"time"
 )
 
@@ -43,6 +44,7 @@ type Call struct {
 
 // FakeAuth is a scripted stand-in for sso-auth's back-channel.
 type FakeAuth struct {
+	nbad         int64 // malformed answers served so far (cycles through their shapes)
 	Srv          *httptest.Server
 	ClientID     string
 	ClientSecret string
@@ -183,8 +185,13 @@ func (fa *FakeAuth) serve(w http.ResponseWriter, r *http.Request) {
 		}
 		panic(http.ErrAbortHandler)
 	case a.Class == "badjson":
+		// the success status with a body that is not the promised document: markup, nothing, a document cut short, JSON of
+		// another shape
+		bodies := []string{"<html>this is not json", "", `{"access_token":"at-cut","expires_in":36`, `{"email":"user@allowed.test","groups":["eng"`,
+			"null", `[]`, `"ok"`, `{"access_token":5,"expires_in":"soon","groups":"eng","email":7}`}
+		k := int(atomic.AddInt64(&fa.nbad, 1))
 		w.WriteHeader(success)
-		w.Write([]byte("<html>this is not json"))
+		w.Write([]byte(bodies[k%len(bodies)]))
 	case a.Class == "ok" || a.Class == "deny":
 		var body interface{}
 		switch ep {
